@@ -610,10 +610,11 @@ func (b *binder) parseGroup(v tla.Value) grp {
 
 // progRun is one TLC run of MCProg.tla over a set of enumerations (RunDef).
 type progRun struct {
-	name    string
-	runs    []string
-	workers int
-	timeout time.Duration
+	name     string
+	runs     []string
+	workers  int
+	timeout  time.Duration
+	coverage bool // run TLC with -coverage and audit that every action was taken (slow)
 }
 
 func (p progRun) cfgText() string {
@@ -624,14 +625,162 @@ func (p progRun) cfgText() string {
 	return fmt.Sprintf("SPECIFICATION Spec\nCONSTANTS\n  RunNames = {%s}\n  ScriptOf <- NoScript\nINVARIANTS Limits Partition\n", strings.Join(q, ", "))
 }
 
-// runProg model-checks one MCProg configuration and replays every
+// progSession replays the states of MCProg.tla as they are read: it keeps the
+// enumerated programs so that every program can be compared step by step
+// with the states of its prefixes, and feeds the replays to worker goroutines.
+type progSession struct {
+	b       *binder
+	nodes   map[uint64]*pnode
+	perRun  map[string]int
+	work    chan []*progCase
+	wg      sync.WaitGroup
+	emu     sync.Mutex
+	err     error
+	waiting []parkedProg
+	seen    int
+}
+
+type parkedProg struct {
+	run  string
+	init []*Elem
+	prog []*Tok
+	pstr []string
+	istr string
+	node *pnode
+}
+
+func (b *binder) newProgSession() *progSession {
+	s := &progSession{b: b, nodes: map[uint64]*pnode{}, perRun: map[string]int{}, work: make(chan []*progCase, 256)}
+	nw := min(b.c.Workers, 8)
+	for i := 0; i < nw; i++ {
+		s.wg.Add(1)
+		go func() {
+			defer s.wg.Done()
+			for bundle := range s.work {
+				if err := b.runProgBundle(bundle); err != nil {
+					s.fail(err)
+				}
+			}
+		}()
+	}
+	return s
+}
+
+func (s *progSession) fail(err error) {
+	s.emu.Lock()
+	if s.err == nil {
+		s.err = err
+	}
+	s.emu.Unlock()
+}
+
+// submit queues the replays of one program; false when a prefix is not known yet.
+func (s *progSession) submit(pk parkedProg) bool {
+	c := s.b.c
+	n := len(pk.prog)
+	anc := make([]*pnode, n+1)
+	for j := 0; j < n; j++ {
+		a := s.nodes[keyOf(pk.istr, pk.pstr, j)]
+		if a == nil {
+			return false
+		}
+		anc[j] = a
+	}
+	anc[n] = pk.node
+	var bundle []*progCase
+	for gi := range pk.node.groups {
+		g := &pk.node.groups[gi]
+		for _, t := range g.cf {
+			pc := &progCase{t: t, init: pk.init, prog: pk.prog}
+			if n == 0 {
+				pc.chain = []*grp{g}
+			}
+			okc := true
+			for j := 1; j <= n; j++ {
+				ag := anc[j].find(t)
+				if ag == nil {
+					okc = false
+					break
+				}
+				pc.chain = append(pc.chain, ag)
+			}
+			if !okc {
+				s.fail(fmt.Errorf("configuration %v missing in an ancestor of %s", t, shortProg(pk.prog)))
+				continue
+			}
+			c.Distinct(fmt.Sprintf("%s/%s/%s/%s/%s", t.mode, lastOpName(pk.prog), g.x, g.s.err, g.v))
+			bundle = append(bundle, pc)
+		}
+	}
+	s.work <- bundle
+	return true
+}
+
+// add takes one state of MCProg.tla; it reports whether the state is new.
+func (s *progSession) add(st tla.State) bool {
+	b := s.b
+	init := b.in.elems_(st["init"])
+	prog := b.in.toks_(st["prog"])
+	pstr := make([]string, len(prog))
+	for i, t := range prog {
+		pstr[i] = t.key
+	}
+	run := st["run"].Str()
+	istr := run + "|" + st["init"].String()
+	key := keyOf(istr, pstr, len(prog))
+	if s.nodes[key] != nil {
+		return false
+	}
+	s.perRun[run]++
+	s.seen++
+	node := &pnode{}
+	for _, gv := range st["res"].Set() {
+		node.groups = append(node.groups, b.parseGroup(gv))
+	}
+	s.nodes[key] = node
+	pk := parkedProg{run, init, prog, pstr, istr, node}
+	if !s.submit(pk) {
+		// children can precede their parent in the dump when several workers write it
+		s.waiting = append(s.waiting, pk)
+	}
+	if len(s.waiting) > 0 && s.seen%512 == 0 {
+		s.retry()
+	}
+	if len(prog) >= 2 && len(node.groups) > 1 && b.takeSample(3) {
+		b.c.Sample(map[string]any{"run": run, "init": shortStack(init), "program": shortProg(prog), "groups": groupSummary(node)})
+	}
+	return true
+}
+
+func (s *progSession) retry() {
+	rest := s.waiting[:0]
+	for _, w := range s.waiting {
+		if !s.submit(w) {
+			rest = append(rest, w)
+		}
+	}
+	s.waiting = rest
+}
+
+// finish waits for the replays.
+func (s *progSession) finish() error {
+	s.retry()
+	for _, w := range s.waiting {
+		s.fail(fmt.Errorf("no ancestor state for program %s", shortProg(w.prog)))
+	}
+	close(s.work)
+	s.wg.Wait()
+	return s.err
+}
+
+// runProg model-checks the enumerations of one MCProg model and replays every
 // (program, configuration) pair of its state space.
 func (b *binder) runProg(p progRun) error {
 	c := b.c
 	dump := filepath.Join(c.Scratch, "prog-"+p.name)
 	t0 := time.Now()
 	res, err := tlc.Run(tlc.Opts{SpecDir: c.SpecDir("script"), Module: "MCProg", CfgText: p.cfgText(), Workers: p.workers,
-		Timeout: p.timeout, Scratch: c.Scratch, Coverage: c.Thorough, HeapGB: 8, Extra: []string{"-dump", dump}})
+		Timeout: p.timeout, Scratch: c.Scratch, Coverage: p.coverage, HeapGB: 8, Extra: []string{"-dump", dump}})
 	if err != nil {
 		return fmt.Errorf("MCProg %s: %w", p.name, err)
 	}
@@ -643,142 +792,77 @@ func (b *binder) runProg(p progRun) error {
 		return err
 	}
 	c.Logf("MCProg %s: %d states in %.0fs", p.name, res.Distinct, time.Since(t0).Seconds())
-
-	nodes := map[uint64]*pnode{}
-	perRun := map[string]int{}
-	work := make(chan []*progCase, 256)
-	var wg sync.WaitGroup
-	var firstErr error
-	var emu sync.Mutex
-	nw := min(c.Workers, 8)
-	for i := 0; i < nw; i++ {
-		wg.Add(1)
-		go func() {
-			defer wg.Done()
-			for bundle := range work {
-				if err := b.runProgBundle(bundle); err != nil {
-					emu.Lock()
-					if firstErr == nil {
-						firstErr = err
-					}
-					emu.Unlock()
-				}
-			}
-		}()
-	}
-	// children can precede their parent in the dump when several workers
-	// write it: park them until the parent shows up
-	type parked struct {
-		init []*Elem
-		prog []*Tok
-		pstr []string
-		istr string
-		node *pnode
-	}
-	var waiting []parked
-	submit := func(pk parked) bool {
-		n := len(pk.prog)
-		anc := make([]*pnode, n+1)
-		for j := 0; j < n; j++ {
-			a := nodes[keyOf(pk.istr, pk.pstr, j)]
-			if a == nil {
-				return false
-			}
-			anc[j] = a
-		}
-		anc[n] = pk.node
-		var bundle []*progCase
-		for gi := range pk.node.groups {
-			g := &pk.node.groups[gi]
-			for _, t := range g.cf {
-				pc := &progCase{t: t, init: pk.init, prog: pk.prog}
-				if n == 0 {
-					pc.chain = []*grp{g}
-				}
-				okc := true
-				for j := 1; j <= n; j++ {
-					ag := anc[j].find(t)
-					if ag == nil {
-						okc = false
-						break
-					}
-					pc.chain = append(pc.chain, ag)
-				}
-				if !okc {
-					emu.Lock()
-					if firstErr == nil {
-						firstErr = fmt.Errorf("configuration %v missing in an ancestor of %s", t, shortProg(pk.prog))
-					}
-					emu.Unlock()
-					continue
-				}
-				c.Distinct(fmt.Sprintf("%s/%s/%s/%s/%s", t.mode, lastOpName(pk.prog), g.x, g.s.err, g.v))
-				bundle = append(bundle, pc)
-			}
-		}
-		work <- bundle
-		return true
-	}
-	count, err := readDump(dump+".dump", func(st tla.State) error {
-		init := b.in.elems_(st["init"])
-		prog := b.in.toks_(st["prog"])
-		pstr := make([]string, len(prog))
-		for i, t := range prog {
-			pstr[i] = t.key
-		}
-		istr := st["run"].Str() + "|" + st["init"].String()
-		perRun[st["run"].Str()]++
-		node := &pnode{}
-		for _, gv := range st["res"].Set() {
-			node.groups = append(node.groups, b.parseGroup(gv))
-		}
-		nodes[keyOf(istr, pstr, len(prog))] = node
-		pk := parked{init, prog, pstr, istr, node}
-		if !submit(pk) {
-			waiting = append(waiting, pk)
-		}
-		if len(waiting) > 0 && len(nodes)%512 == 0 {
-			rest := waiting[:0]
-			for _, w := range waiting {
-				if !submit(w) {
-					rest = append(rest, w)
-				}
-			}
-			waiting = rest
-		}
-		if len(prog) >= 2 && len(node.groups) > 1 && b.takeSample(3) {
-			c.Sample(map[string]any{"run": st["run"].Str(), "init": shortStack(init), "program": shortProg(prog), "groups": groupSummary(node)})
-		}
+	s := b.newProgSession()
+	count, rerr := readDump(dump+".dump", func(st tla.State) error {
+		s.add(st)
 		return nil
 	})
-	for _, w := range waiting {
-		if !submit(w) {
-			emu.Lock()
-			if firstErr == nil {
-				firstErr = fmt.Errorf("no ancestor state for program %s", shortProg(w.prog))
-			}
-			emu.Unlock()
-		}
-	}
-	close(work)
-	wg.Wait()
-	if err != nil {
+	if err := s.finish(); err != nil {
 		return err
 	}
-	if firstErr != nil {
-		return firstErr
+	if rerr != nil {
+		return rerr
 	}
 	if int64(count) != res.Distinct {
 		return fmt.Errorf("MCProg %s: dump has %d states, TLC reports %d", p.name, count, res.Distinct)
 	}
-	c.Logf("MCProg %s: replayed %v (%.0fs total)", p.name, perRun, time.Since(t0).Seconds())
-	c.SetExtra("mcprog_states_"+p.name, perRun)
-	if c.Thorough {
-		for _, a := range []string{"Init", "Extend"} {
-			if res.ActionCount[a] == 0 {
-				return fmt.Errorf("MCProg %s: action %s never taken (coverage %v)", p.name, a, res.ActionCount)
+	c.Logf("MCProg %s: replayed %v (%.0fs total)", p.name, s.perRun, time.Since(t0).Seconds())
+	c.SetExtra("mcprog_states_"+p.name, s.perRun)
+	if p.coverage {
+		if err := coverageAudit("MCProg "+p.name, res, []string{"Init", "Next"}); err != nil {
+			return err
+		}
+	}
+	return nil
+}
+
+// coverageAudit fails when an action of the model was never taken.
+func coverageAudit(what string, res *tlc.Result, actions []string) error {
+	for _, a := range actions {
+		if res.ActionCount[a] == 0 {
+			return fmt.Errorf("%s: action %s never taken (coverage %v)", what, a, res.ActionCount)
+		}
+	}
+	return nil
+}
+
+// runSim lets TLC simulate long programs (only extensions that keep a
+// configuration alive) and replays every state of every behaviour.
+func (b *binder) runSim(name string, run string, num, depth int) error {
+	c := b.c
+	t0 := time.Now()
+	cfg := progRun{runs: []string{run}}.cfgText()
+	res, err := tlc.Run(tlc.Opts{SpecDir: c.SpecDir("script"), Module: "MCProg", CfgText: cfg, Timeout: 20 * time.Minute, Scratch: c.Scratch,
+		HeapGB: 6, Sim: &tlc.Sim{Num: num, Depth: depth, Seed: c.Seed}})
+	if err != nil {
+		return fmt.Errorf("MCProg simulation %s: %w", name, err)
+	}
+	if !res.OK {
+		return fmt.Errorf("MCProg simulation %s: the specification violates its own invariant %s %s\n%s", name, res.ErrKind, res.ErrName, tail(res.Output, 3000))
+	}
+	if err := b.ensureTables(res.Output); err != nil {
+		return err
+	}
+	s := b.newProgSession()
+	longest, total := 0, 0
+	for _, beh := range res.Behaviours {
+		for _, ts := range beh {
+			if s.add(ts.State) {
+				total++
+			}
+			if l := ts.State["prog"].Len(); l > longest {
+				longest = l
 			}
 		}
+	}
+	if err := s.finish(); err != nil {
+		return err
+	}
+	c.AddModel(int64(total), res.Generated)
+	c.SetExtra("simulated_"+name, map[string]any{"behaviours": len(res.Behaviours), "distinct_states": total, "longest_program": longest})
+	c.Logf("MCProg simulation %s: %d behaviours, %d distinct states, longest program %d tokens (%.0fs)", name, len(res.Behaviours), total, longest, time.Since(t0).Seconds())
+	if len(res.Behaviours) == 0 || longest < 8 {
+		return fmt.Errorf("MCProg simulation %s produced no long programs (%d behaviours, longest %d)", name, len(res.Behaviours), longest)
 	}
 	return nil
 }
